@@ -1,4 +1,6 @@
 //! Independent reference model written from the RFC 9420 text (shares no code with /repo).
+pub mod keysched;
 pub mod tls;
 pub mod tree;
 pub mod treemath;
+pub mod wire;
